@@ -115,6 +115,8 @@ def quick():
     c.append(Cfg("three_linked_label_orders", (DS("d1", T2, (0.0, 1.0), megacomplexes=("ma",)), DS("d2", T3, (1.0, 2.0), megacomplexes=("mb",), scale=True), DS("d3", T2, (2.0, 3.0), megacomplexes=("mc",))), megacomplexes={"ma": (("s1", "s2"), False), "mb": (("s2", "s3"), False), "mc": (("s1", "s3"), False)}, groups={"default": (True, VP)}))
     c.append(Cfg("relation_source_absent_linked", (DS("ds1", T3, (0.0, 1.0)), DS("ds2", T2, (1.0, 2.0))), megacomplexes=M13, relations=(("sx", "s2", None),), groups={"default": (True, VP)}))
     # model weights
+    # model weights on datasets stored as (global, model), one of them square (as many global as model points)
+    c.append(Cfg("model_weight_gm_square", (DS("ds1", T3, (0.0, 1.0, 2.0), order="gm"), DS("ds2", T2, (0.0, 1.0, 2.0), order="gm")), model_weights=((("ds1",), (1.0, 2.0), (0.0, 1.0)), (("ds1", "ds2"), None, (1.0, INF))), groups={"default": (False, VP)}))
     c.append(Cfg("model_weight", (DS("ds1", T3, (0.0, 1.0, 2.0)), DS("ds2", T2, (0.0, 1.0))), model_weights=((("ds1",), (1.0, 2.0), (0.0, 1.0)), (("ds1", "ds2"), None, (1.0, INF))), groups={"default": (False, VP)}))
     c.append(Cfg("model_weight_and_dataset_weight", (DS("ds1", T2, (0.0, 1.0), weight=True),), model_weights=((("ds1",), None, None),), groups={"default": (True, VP)}))
     c.append(Cfg("model_weight_linked", (DS("ds1", T3, (0.0, 1.0)), DS("ds2", T2, (1.0, 2.0), scale=True)), model_weights=((("ds1",), None, (1.0, 2.5)), (("ds1", "ds2"), (1.0, 2.0), None)), groups={"default": (True, VP)}))  # bounds on axis points: the reference applies a weight exactly on the closed interval (nearest-point slack is C08's ModelWeight)
